@@ -31,8 +31,14 @@ def hierarchy_axioms():
             z3.ForAll([a, b, k], z3.Implies(z3.And(ISSUB(a, b), DOM(b, k)), DOM(a, k)))]
 
 
-def new_map(st, has, val, tag="map"):
-    return st.new("nsmap", {"has": has, "val": val, "tag": tag})
+OID = z3.Function("ns_object", I, I)                        # identity of the i-th namespace object given
+DOID = z3.Function("default_namespace_object", I, I)        # identity of the (shared) default namespace object of class k
+VALOF = z3.Function("value_of_object", I, I)                # an object has one value: identical objects are equal, not conversely
+
+
+def new_map(st, has, val, tag="map", oid=None):
+    """oid: k -> identity of the object stored under k (known for the pristine defaults map only)"""
+    return st.new("nsmap", {"has": has, "val": val, "tag": tag, "oid": oid})
 
 
 def map_world(eng):
@@ -46,7 +52,7 @@ def map_world(eng):
     def copy(e, s, recv, a, k):
         s = e.fork(s)
         h = s.H(recv)
-        return [(new_map(s, h["has"], h["val"], "copy"), s)]
+        return [(new_map(s, h["has"], h["val"], "copy", h.get("oid")), s)]
 
     def update(e, s, recv, a, k):
         s = e.fork(s)
@@ -54,6 +60,7 @@ def map_world(eng):
         kk = z3.Int("k!upd")
         h["val"] = z3.Lambda([kk], z3.If(o["has"][kk], o["val"][kk], h["val"][kk]))
         h["has"] = z3.Lambda([kk], z3.Or(o["has"][kk], h["has"][kk]))
+        h["oid"] = None
         return [(None, s)]
 
     def contains(e, s, recv, a, k):
@@ -65,7 +72,25 @@ def map_world(eng):
         v = a[1].f["id"] if isinstance(a[1], Rec) else a[1]
         h["val"] = z3.Store(h["val"], kk, to_z3(v))
         h["has"] = z3.Store(h["has"], kk, True)
+        h["oid"] = None
         return [(None, s)]
+
+    def getitem(e, s, recv, a, k):
+        kk = key(s, a[0])
+        outs = []
+        for present, s2 in e.split(s, s.H(recv)["has"][kk]):
+            if not present:
+                e.raise_("KeyError", s2)
+                continue
+            h = s2.H(recv)
+            if h.get("oid") is not None:
+                o = h["oid"](kk)
+                s2.pc.append(h["val"][kk] == VALOF(o))
+            else:
+                o = e.sym_int("some_object")
+            outs.append((Rec("ArgsNamespace", {"id": h["val"][kk], "oid": o, "_RENDER_CLS": Rec("rcls", {"cid": kk, "__name__": "NsCls"})}), s2))
+        return outs
+    eng.methods[("nsmap", "__getitem__")] = getitem
     eng.methods.update({("nsmap", "copy"): copy, ("nsmap", "update"): update, ("nsmap", "__contains__"): contains, ("nsmap", "__setitem__"): setitem})
     eng.closed_classes.add("nsmap")
     return key
@@ -90,7 +115,7 @@ def init_unit(init_kind, first_is_namespace):
             eng.genv[exc] = ClassV(exc)
             eng.exc_parents[exc] = "RenderArgsError"
         kq = z3.Int("k!dom")
-        defaults = new_map(st, z3.Lambda([kq], DOM(C, kq)), z3.Lambda([kq], DEF(kq)), "defaults-of-render_cls")
+        defaults = new_map(st, z3.Lambda([kq], DOM(C, kq)), z3.Lambda([kq], DEF(kq)), "defaults-of-render_cls", oid=lambda k_: DOID(k_))
         render_cls = st.new("rcls", {"cid": C, "_ALL_DEFAULT_ARGS": defaults, "__name__": "Target"})
         BASE = st.new("RenderArgs", {"base": True})
         eng.genv["BASE_RENDER_ARGS"] = BASE
@@ -138,7 +163,8 @@ def init_unit(init_kind, first_is_namespace):
         def ns_elem(i, s_):
             i = to_z3(i)
             s_.ghost["Qterms"] = list(s_.ghost.get("Qterms", [])) + [RC(i + shift)]
-            return Rec("ArgsNamespace", {"id": NS(i + shift), "_RENDER_CLS": Rec("rcls", {"cid": RC(i + shift), "__name__": "NsCls"})})
+            s_.pc.append(NS(i + shift) == VALOF(OID(i + shift)))
+            return Rec("ArgsNamespace", {"id": NS(i + shift), "oid": OID(i + shift), "_RENDER_CLS": Rec("rcls", {"cid": RC(i + shift), "__name__": "NsCls"})})
         namespaces = SeqV(n, ns_elem, "tuple")
         first = Rec("ArgsNamespace", {"id": NS(z3.IntVal(0)), "_RENDER_CLS": Rec("rcls", {"cid": RC(z3.IntVal(0)), "__name__": "NsCls"})})
         eng.classes["ArgsNamespace"] = ()
@@ -155,7 +181,8 @@ def init_unit(init_kind, first_is_namespace):
                     def el(i, s2):
                         i = to_z3(i)
                         s2.ghost["Qterms"] = list(s2.ghost.get("Qterms", [])) + [RC(i)]
-                        return Rec("ArgsNamespace", {"id": NS(i), "_RENDER_CLS": Rec("rcls", {"cid": RC(i), "__name__": "NsCls"})})
+                        s2.pc.append(NS(i) == VALOF(OID(i)))
+                        return Rec("ArgsNamespace", {"id": NS(i), "oid": OID(i), "_RENDER_CLS": Rec("rcls", {"cid": RC(i), "__name__": "NsCls"})})
                     return [(SeqV(rest.length + 1, el, "tuple"), s1)]
             return orig_ev_tuple(e_, s_)
         eng.ev_Tuple = ev_Tuple
